@@ -520,7 +520,7 @@ def run(pid, tier, seed, res, p_sub=None, p_flag=None, only=None):
                     items.append(em["b"])
     prefix = "kvalue_%s" % pid
     coqrun.clean_build(prefix)
-    paths = coqrun.write_shards(prefix, "Graph Sched Dataflow Terms IsoCheck Args ArgsCheck Ids", items, per_file=60)
+    paths = coqrun.write_shards(prefix, "Graph Sched Dataflow Terms IsoCheck Args ArgsCheck Ids", items, per_file=16)
     import time as _t
     _t0 = _t.time()
     results, errors = coqrun.run_shards(paths)
